@@ -593,6 +593,12 @@ func (x *xtr) call(c *ast.CallExpr) xval {
 			return xval{s: x.applyFn(c, m.lean+" "+paren(rv.s), m.ft), ty: m.ft.results[0]}
 		}
 	}
+	if fn, ft, ok := x.knownMethod(c); ok {
+		if len(ft.results) != 1 {
+			x.bad(c, "call of the method %s with %d results inside an expression", name, len(ft.results))
+		}
+		return xval{s: x.applyFn(c, fn, ft), ty: ft.results[0]}
+	}
 	if u, ok := x.uses[name]; ok {
 		te, err := parser.ParseExpr(u.Sig)
 		if err != nil {
@@ -764,6 +770,28 @@ func (x *xtr) call(c *ast.CallExpr) xval {
 	}
 	x.bad(c, "call %s", name)
 	return xval{}
+}
+
+// `v.M(..)` where v is a struct value and M a method of its type translated earlier into this module: the Lean
+// function (already applied to the receiver) and its type
+func (x *xtr) knownMethod(c *ast.CallExpr) (string, *xty, bool) {
+	se, ok := c.Fun.(*ast.SelectorExpr)
+	if !ok {
+		return "", nil, false
+	}
+	base := lvalueBase(se.X)
+	if base == "" || x.env[base] == nil {
+		return "", nil, false
+	}
+	rv := x.expr(se.X)
+	if rv.ty.k != kStruct {
+		return "", nil, false
+	}
+	ft, ok := x.known[rv.ty.name+"."+se.Sel.Name]
+	if !ok {
+		return "", nil, false
+	}
+	return rv.ty.name + "_" + se.Sel.Name + " " + paren(rv.s), ft, true
 }
 
 // is the variable assigned exactly once in the whole function body (so that &v can stand for its value)?
